@@ -5,7 +5,7 @@ from hypothesis import given, strategies as st
 from vf import common
 from vf import strategies as vs
 from vf.common import Violation
-from vf.world import make_sketch, snapshot, snap_diff, snap_equal, sut, windows
+from vf.world import interfere, make_sketch, snapshot, snap_diff, snap_equal, sut, windows
 
 RULE = (
     "Hypothesis-generated cases for all five sketch classes (count-min linear/log16/log8 with width in {1,2,3,5,16} and depth 1..3, log "
@@ -43,7 +43,7 @@ def cases(draw):
     pool = draw(st.lists(KEYS, min_size=2, max_size=6))
     key = st.sampled_from(pool)
     vmax = 300 if log else 10**4
-    val = st.one_of(st.sampled_from([1, 1, 2, 3, 16, 17]), st.integers(1, 40), st.integers(1, vmax))
+    val = st.one_of(st.sampled_from([1, 1, 2, 3, 16, 17, 255, 256, 257]), st.integers(1, 40), st.integers(1, vmax))
     pre = draw(st.lists(st.tuples(key, st.integers(1, 20)), min_size=0, max_size=6))
     kind = draw(st.sampled_from(["update_list", "update_dict", "add", "add_ngram", "update_ngram"]))
     op = {"op": kind}
@@ -133,6 +133,7 @@ def run_case(case):
             sk.rand_nums[:] = batch
             sk.rand_ptr = 0
     op = case["op"]
+    interfere(cfg)
     # A: the compound call
     if op["op"] == "update_list":
         sut(A.update, list(op["keys"]))
@@ -144,6 +145,7 @@ def run_case(case):
         sut(A.add_ngram, op["k"], op["n"])
     else:
         sut(A.update_ngram, list(op["keys"]), op["n"])
+    interfere(cfg)
     for c in per_item(op, kind):
         call(B, c)
     for c in singles(op, kind):
